@@ -8,6 +8,8 @@ import MosnVerif.Model.EnvelopeRef
 import MosnVerif.Model.HttpUri
 import MosnVerif.Model.Relay
 import MosnVerif.Model.Http1Msg
+import MosnVerif.Model.RelayStart
+import MosnVerif.Model.Http1Method
 import MosnVerif.Model.Reencode
 import MosnVerif.Model.ReencodeSpec
 /-!
@@ -340,6 +342,56 @@ def reencCase (proto kind roundsS inS : String) (impl : List String) : String :=
     | none => "E E bad-impl"
   | _, _, _ => "E E bad-case"
 
+/-! ### TCP relay, the upstream speaks first
+
+  `relayup <close|hold|wait> <greeting chunk sizes> <client chunk sizes> <response chunk sizes> => <c2s> <s2c>`
+
+The model runs the regenerated set-up calls of `initializeUpstreamConnection` with the widened interleaving of the
+harness: the greeting is in the socket when the read loop starts and one loop iteration runs before the calls that follow
+`Connect`.  hold / wait: the client only speaks once it has the whole greeting — `short:n` if it had `n` bytes then. -/
+def relayUpCase (mode gsS csS ssS : String) (impl : List String) : String :=
+  match parseSizes gsS, parseSizes csS, parseSizes ssS, impl with
+  | some gs, some cs, some ss, [c2s, s2c] =>
+    let sc (l : List Nat) := l.map (fun n => if n > 256 then 256 + n / 65536 else n)
+    let (gs, cs, ss) := (sc gs, sc cs, sc ss)
+    let tot (l : List Nat) := l.foldl (· + ·) 0
+    let calls := MosnVerif.Gen.C01RelayOrder.upstreamCalls
+    let k := (calls.takeWhile (· != RelayStart.upStart)).length + 1
+    let sends (l : List Nat) : List RelayStart.Ev := (l.filter (· > 0)).map (fun n => .peerSend (List.replicate n 0))
+    let stG := RelayStart.run RelayStart.upReg RelayStart.upStart RelayStart.upstreamInit
+      (List.replicate k .setup ++ sends gs ++ [.loop] ++ List.replicate (calls.length - k) .setup ++ [.loop])
+    let atTurn := (RelayStart.flat stG.delivered).length
+    let rest : List RelayStart.Ev :=
+      if mode == "close" then [.peerClose, .loop] else if mode == "wait" then sends ss ++ [.loop, .peerClose, .loop] else []
+    let st := RelayStart.run RelayStart.upReg RelayStart.upStart stG rest
+    let rd (d : Relay.Side) (l : List Nat) : List Relay.Ev := l.map (fun n => .read d (List.replicate n 0))
+    let wr (d : Relay.Side) (n : Nat) : List Relay.Ev := List.replicate (n + 1) (.write d)
+    let r := Relay.run {} (rd .down cs ++ wr .up cs.length ++ RelayStart.toRelay .up st ++
+      (if st.eof then [.peerClosed .up] else []) ++ wr .down st.delivered.length)
+    let v (got want : Nat) : String := if got == want then "ok" else s!"short:{got}"
+    let m1 := v r.up.sent.length (tot cs)
+    let m2 := if mode != "close" && atTurn != tot gs then s!"short:{atTurn}" else v r.down.sent.length (tot gs + tot ss)
+    let agree := m1 == c2s && m2 == s2c
+    let spec := c2s == "ok" && s2c == "ok"
+    s!"{if agree then "A" else "D"} {if spec then "S" else "V"} {m1} {m2}"
+  | _, _, _, _ => "E E bad-relayup-case"
+
+/-! ### HTTP/1 method
+
+  `http1m p <METHOD> <none|cl0|cl|chunked|chunked0> <bodyHex> => <METHOD> <bodyHex> | lost`   through the proxy
+  `http1m d - <end|data> <bodyHex> => <METHOD> <bodyHex> | lost`                              converted request, no method variable -/
+def http1MethodCase (toks impl : List String) : String :=
+  let fmt (agree spec : Bool) (m : String) := s!"{if agree then "A" else "D"} {if spec then "S" else "V"} {m}"
+  match toks, impl with
+  | ["p", method, _, body], [gm, gb] =>
+    let model := Http1Method.forwarded method (body != "-")
+    fmt (gm == model && gb == body) (gm == method && gb == body) model
+  | ["d", _, what, body], [gm, gb] =>
+    let model := Http1Method.converted (what == "data")
+    fmt (gm == model && gb == body) (gm == Http1Method.defaultRule (what == "data") && gb == body && (what == "data") == (body != "-")) model
+  | _, ["lost"] => "D V lost"
+  | _, _ => "E E bad-http1m-case"
+
 def run (caseToks impl : List String) : String :=
   match caseToks with
   | ["reenc", proto, kind, rounds, inp] => reencCase proto kind rounds inp impl
@@ -352,6 +404,8 @@ def run (caseToks impl : List String) : String :=
   | ["uri", t, rw, pv, po, qs, un, fh, ru] => uriCase t rw pv po qs un fh ru impl
   | ["relay", scen, cs, ss, ex] => relayCase scen cs ss ex impl
   | "http1" :: r => http1Case r impl
+  | "http1m" :: r => http1MethodCase r impl
+  | ["relayup", mode, gs, cs, ss] => relayUpCase mode gs cs ss impl
   | "http2" :: r => http2Case r impl
   | _ => "E E unknown-kind"
 
